@@ -1,5 +1,5 @@
 PROP = {
-    "lean_modules": ["GunYu.Props.C08"],
+    "lean_modules": ["GunYu.Props.C08", "GunYu.Props.C08Faults", "GunYu.Props.C08Verify", "GunYu.Props.C08Root"],
     "audit_namespaces": ["GunYu.Props.C08"],
     "required_theorems": [
         "GunYu.Props.C08.reopen_range_contiguous",
@@ -25,6 +25,38 @@ PROP = {
         "GunYu.Props.C08.closed_segment_verifies",
         "GunYu.Props.C08.altered_data_accepted_iff",
         "GunYu.Props.C08.altered_size_refused",
+        # session 4 — torn header rewrites, faults (Props/C08Faults.lean)
+        "GunYu.Props.C08.crash_bytes_true_torn",
+        "GunYu.Props.C08.crash_snapshot_true_torn",
+        "GunYu.Props.C08.fault_ops_true",
+        "GunYu.Props.C08.fault_crash_bytes_true",
+        "GunYu.Props.C08.fault_crash_snapshot_true",
+        "GunYu.Props.C08.fault_crash_snapshot_complete",
+        # verification while the process lives (Props/C08Verify.lean)
+        "GunYu.Props.C08.verify_restart_nothing_live",
+        "GunYu.Props.C08.live_segment_accepted",
+        "GunYu.Props.C08.altered_closed_segment_never_served",
+        "GunYu.Props.C08.altered_closed_segment_never_served_live",
+        "GunYu.Props.C08.live_bytes_true",
+        "GunYu.Props.C08.closed_segment_file_exact",
+        "GunYu.Props.C08.closed_segment_file_exact_plain",
+        "GunYu.Props.C08.closed_segment_verifies_live",
+        "GunYu.Props.C08.accepted_iff_consistent",
+        "GunYu.Props.C08.version_reserved_ignored",
+        "GunYu.Props.C08.accepted_alteration_cases",
+        "GunYu.Props.C08.burst_alteration_refused",
+        "GunYu.Props.C08.live_burst_never_served",
+        # life after the restart, several id directories (Props/C08Root.lean)
+        "GunYu.Props.C08.resume_crash_bytes_true",
+        "GunYu.Props.C08.resume_crash_snapshot_complete",
+        "GunYu.Props.C08.resume_image_reopenable",
+        "GunYu.Props.C08.rootOk_bytes_true",
+        "GunYu.Props.C08.del_run_id_crash_true",
+        "GunYu.Props.C08.set_run_id_crash_true",
+        "GunYu.Props.C08.set_run_id_rename_agree",
+        "GunYu.Props.C08.verify_run_id_right_id",
+        "GunYu.Props.C08.root_bytes_true",
+        "GunYu.Props.C08.root_snapshot_complete",
     ],
     "expected_facts": {"crc64tab_len": 256},
     "harness": [
@@ -37,61 +69,100 @@ PROP = {
             "writer ends), writer close/replacement, collector passes with size limits, new snapshots over existing data) with bytes from "
             "a per-case source function, plus per run at least one production-size script (rotation limit > 3 x 4096, snapshot > 3 x 8192 "
             "with a valid CRC64 footer, so every 4096/8192-byte loop of the code runs several iterations); two thirds of all snapshots "
-            "carry a valid checksum footer (a verifying reader accepts them). The REAL RdbWriter/AofRotater/resetDataSet/gcLogs run in a "
-            "child process under strace; the file-level syscalls on the cache directory (create/append/header rewrite/rename/remove; "
-            "short writes cut to the returned length) are (1) compared op for op with the Lean model's scriptOps and (2) replayed prefix "
-            "by prefix (every instant the process could have died) plus each multi-byte write torn at 1, n/2, n-1 bytes into fresh "
+            "carry a valid checksum footer (a verifying reader accepts them). FAULTS (session 4; in the random scripts and in two fault scripts "
+            "per run that contain every kind once, each followed by further steps): the header rewrite failing after k = 0..15 bytes at close "
+            "and at a rotation (RLIMIT_FSIZE set by the writer's own write observer between the data write and the rotation), the open of the "
+            "next segment failing at a rotation, os.Remove failing at the close of an empty live segment / at an incomplete snapshot / for every "
+            "RemoveAll of a collector pass, or for SOME of its segments only (dgcp: those files immutable) (immutable attribute on the directory: create, unlink, rename fail with EPERM; counter "
+            "fault_injection_immutable_dir, or note_..._unsupported when the file system cannot). The REAL RdbWriter/AofRotater/resetDataSet/gcLogs run in a "
+            "child process under strace; the syscalls on the cache directory — successful AND failed attempts (fail create <flags> / fail remove / fail write @offset <bytes>) — are "
+            "(1) compared op for op with the Lean model (scriptOps for fault-free scripts AND xScriptOps, which must agree; xrun with faults): name(s), "
+            "open flags of every create (O_WRONLY|O_CREAT|O_TRUNC), offset and bytes of every write (append @size, header rewrite @0), rename source and "
+            "target, order of the unlinks (the reset's walk over what the directory really holds, orphans of failed removals included), and a line `hyp wf=1 src=1`: the driver CHECKS on every script (c8w and c8d) that it "
+            "meets the theorems' hypotheses (wfXB = decide wfX; srcOkXB with the harness' source function, proved sound: srcOkXB_sound) — a script outside them is a DIFF, counter scripts_hypotheses_checked; (1b) the MODEL's "
+            "crash image crashImageX [] ops n k is compared with the image built from the real syscalls for every prefix and every torn write; "
+            "(2) replayed prefix by prefix (every instant the process could have died) plus each multi-byte write — appends AND header rewrites — torn at 1, n/2, n-1 bytes into fresh "
             "directories that the real NewStorer/SetRunId/GetReader re-open with verification off and on (every prefix); range, snapshot, "
-            "validity of the offsets around every boundary, every stream byte read and every snapshot byte read through the real "
+            "validity of the offsets around every boundary, the set of files initDataSet unlinked (removed=), every stream byte read and every snapshot byte read through the real "
             "RdbReader are compared with the model and, independently, with the source bytes; (3) each closed segment of the final image "
             "is altered (data bit anywhere, data bit in the last 4 KiB piece, recorded size, recorded crc, truncated, extended) and each "
             "footer-carrying snapshot (data bit, last piece, footer) and re-opened with verification; (4) random subsets of the final "
-            "image (os.RemoveAll order is not lexical) are re-opened; (5) life after the restart (monitor only): the real writer resumes at "
-            "LatestOffset on the re-opened Storer, appends, the collector runs with a small limit, a write fails (descriptor closed), the "
-            "process dies again and is re-opened, the replication id changes (directory renamed by SetRunId), VerifyRunId finds it "
-            "among several ids, DelRunId deletes it; demanded there is SAFETY only (every byte served is the source's, the reported end never "
-            "exceeds what was written); retention, writer liveness and 'a deleted cache is gone' (C06/C16) are counted as notes. At RUNTIME after a "
+            "image (os.RemoveAll order is not lexical) are re-opened; (5) life after the restart: the real writer resumes at "
+            "LatestOffset on the re-opened Storer, appends, the collector runs with a small limit; VERIFYING readers on the live index (c8v: segments the resumed "
+            "writer closed pass, what the crash left torn is refused, the writer's own segment is not verified; then one closed segment is altered on disk; then the writer's close fails its header rewrite "
+            "(descriptor closed underneath it: the close observer never runs), a new writer goes on and a verifying reader passes through that segment) are "
+            "compared with serveLive — the function the live_* theorems are about — on XDisk.ofImage (directory, writer's segment, segments whose close observer never ran); a write fails (descriptor closed), the process dies again and is re-opened (monitors: every byte served is the source's, the reported end never "
+            "exceeds what was written); (6) SEVERAL REPLICATION-ID DIRECTORIES (two id scripts per run): lives of the writers in directories a, b (two independent sources), a new process choosing "
+            "with VerifyRunId among ?, a missing id, a, b; an id change (SetRunId renames the directory), switches between existing ids (re-scan), DelRunId of the current id, a directory "
+            "re-created, DelRunId of another / a missing id — the directory-level syscalls (mkdir, rename, the unlinks of RemoveAll as a set, rmdir) and the writers' operations of the "
+            "resumed lives are compared op for op with the model (c8d: setRunIdSys / verifyRunId / delRunIdSys / XDisk.reopened + xstep); every prefix (and torn write) of them is a base "
+            "directory whose every id directory is re-opened by the real code (compared with the model, monitored against ITS id's source), and a new process' real VerifyRunId(ids) on it "
+            "is compared with the model's (c8V: id taken, current id, offset returned). Retention, writer liveness and 'a deleted cache is gone' (C06/C16) are counted as notes. At RUNTIME after a "
             "short write the reported range must equal the bytes in the files. Scripts reach the child through a file (no size limit). distinct_nontrivial = distinct directory images re-opened",
     "trusted": [
         "strace's rendering of the syscalls and the harness' parser of it (harness/overlay/pkg/store/vf_c08_test.go; any of "
-        "write/writev/pwrite64/pwritev/ftruncate/O_APPEND/O_TRUNC is turned into 'bytes at an offset of a file'; sanity check of trace AND parser: "
-        "the parsed operations applied to an empty directory must reproduce, byte for byte, the directory the child left behind — otherwise "
+        "write/writev/pwrite64/pwritev/ftruncate/O_APPEND/O_TRUNC is turned into 'bytes at an offset of a file'; failed calls (= -1 E…) on the directory are "
+        "kept as attempts, the several syscalls of one os.Remove/os.RemoveAll on one name counted once; sanity check of trace AND parser: "
+        "the parsed operations applied to an empty directory must reproduce, byte for byte, the directory (multi-id scripts: the whole base directory) the child left behind — otherwise "
         "(and when strace or the child cannot run) the case is retried and then reported as a broken tie (test failure -> BROKEN [tie], "
         "no-failing-input-found), never as a violation with a failing input)",
         "process-death semantics of the file system: a crash leaves a prefix of the issued syscalls, the last write possibly torn "
-        "(power-loss reordering of unsynced writes is outside the property)",
+        "(power-loss reordering of unsynced writes is outside the property); a directory rename is atomic",
+        "the fault injection stands for the faults it imitates: RLIMIT_FSIZE (EFBIG after k bytes) for a failing write, the immutable directory attribute (EPERM) for "
+        "failing create / unlink of the directory's entries; the code under test does not look at the errno",
         "file-name classification (strconv.ParseInt / ParseRdbFile on names the writers produce) is done by the driver, not the model "
         "(the model's names are an inductive type; the second conjunct of tmp_snapshot_not_offered is therefore definitional)",
-        "CRC64 detects every burst error of at most 64 bits (standard CRC fact; the theorems say: accepted only if length equal and CRC64 collides)",
+        "CRC64 burst detection: PROVED (burst_alteration_refused, from the regenerated table: GF(2)-linearity + injectivity of the register step + the folding identity) for every change "
+        "confined to 8 consecutive bytes, i.e. every burst of at most 57 bits wherever it starts and every byte-aligned 64-bit burst; still TRUSTED (standard CRC fact): a burst of 58..64 bits that "
+        "straddles 9 bytes. For everything else the theorems say: accepted only if length equal and CRC64 collides, or header bytes 1..12 rewritten consistently (accepted_alteration_cases)",
     ],
     "assumptions": [
         "syscall-level tie chosen over directory snapshots: strace works in the sandbox, so every syscall prefix of the real writers is a crash image (no hooks)",
-        "SrcOk (hypothesis of script_ops_true / crash_bytes_true): the chunks handed to the stream writer are the source's bytes at the "
+        "SrcOk / SrcOkX (hypothesis of script_ops_true / crash_bytes_true / fault_crash_bytes_true / resume_crash_bytes_true / live_bytes_true): the chunks handed to the stream writer are the source's bytes at the "
         "offsets they are appended at — that the CALLERS hand over what they received is C05 (pipe/ingest, harness C05chan) and C06",
-        "the crash scripts of the model use one replication id; the id-level operations (rename on id change, VerifyRunId among several "
-        "ids, DelRunId, any subset of files surviving a RemoveAll) are exercised on the real code with the monitor only, not modelled",
+        "several ids (Props/C08Root.lean): srcOf id = the history of replication id id. The one hypothesis about ids: when SetRunId RENAMES the current directory to a new id (changeReplId), "
+        "what the directory holds is history of the new id too (RenOk; the source continued the stream under a new replication id — which offsets that covers is C06's). "
+        "The hypothesis is asked only when the operation really renames (setRunIdRenames) and follows from PSYNC2's Agree (the new id's history equals the old one's below the switch offset x) plus "
+        "'the directory holds nothing at or beyond x' (set_run_id_rename_agree / renOk_of_agree; C06: Agree, cache_consistent_after — cited, composed by this lemma, C06 is not imported). "
+        "VerifyRunId, DelRunId and SetRunId on an existing directory need no hypothesis (they never rename: verifyRunId_spec, delRunIdSys_no_rename); VerifyRunId's choice is the code's rule (Chosen, verifyRunId_rule: an iff)",
+        "an id switch and a DelRunId find the writers closed (the callers' protocol, Disk.okOp); a new process' index is reopen(directory) — the id-level model builds the index of a resumed life "
+        "with XDisk.reopened (proved to satisfy the writers' invariants for ANY truthful directory with distinct names and complete committed snapshots: xinv_reopened)",
         "CRC64 table regenerated from pkg/digest/crc64.go each run (Gen/Crc64Table.lean)",
     ],
     "partial": [
-        "crash_bytes_true / crash_snapshot_complete quantify over the MODEL's scriptOps (all scripts, all crash instants, all torn lengths); "
-        "that the real writers issue exactly these file operations is the syscall-level correspondence, not a theorem",
-        "the model tears appends only; a torn 16-byte header rewrite is not a model crash image (harmless for truth: the header is unused "
-        "without verification and refused with it) — the harness does tear header writes (every multi-byte write) and re-opens them",
-        "snapshot content: crash_snapshot_true proves that an offered snapshot file holds exactly the bytes the ghost `received` records for that announcement "
+        "fault_crash_bytes_true / crash_bytes_true(_torn) / crash_snapshot_true(_torn) / resume_* quantify over the MODEL's operation lists (all scripts with faults anywhere, all crash instants, all torn "
+        "lengths of appends and header rewrites, any truthful start directory); that the real writers issue exactly these file operations — names, flags, offsets, bytes, order, failed attempts — is the "
+        "syscall-level correspondence (compared op for op on every script run), not a theorem; the Go code is not translated",
+        "faults modelled and injected: header rewrite failing after k<16 bytes (close, rotation), open failing at rotation, os.Remove failing (empty live segment, temporary snapshot, every removal of a "
+        "collector pass or any subset of its segments), short write. NOT modelled / injected: a failing os.Rename / fsync at the snapshot commit (repaired in /repo 679f548 / 45f65ae and injected by C16's harness: the snapshot is then dropped like an incomplete one), "
+        "the fixHeader write of a new segment failing after its creation, os.Remove failing inside resetDataSet's walk or inside initDataSet (property-neutral: the file is cut again at the next "
+        "re-opening), Sync/Close errors, a short write that crosses the rotation limit is modelled (no rotation) but the harness only injects k below the limit",
+        "snapshot content: crash_snapshot_true / fault_crash_snapshot_true prove that an offered snapshot file holds exactly the bytes the ghost `received` records for that announcement "
         "(every byte handed to the snapshot writer since it was created, computed from the operation list alone; ghost_matches_index ties it to the index), complete and "
-        "in order, for every script / crash instant / torn length; the monitor snapshot-bytes-wrong is its tie to the real writers. NOT said: which source snapshot these "
-        "bytes are (C06's World.snap) — CacheOK only needs the offset the file is filed under",
-        "stream-side faults: short writes are modelled and injected; a failing header rewrite at close, a failing open at rotation and failing "
-        "os.Remove calls are NOT injected (review mutation 8 — close observer called or not after a failed header write — stays uncaught; "
-        "its effect is on the runtime index, not on what a re-opened cache serves)",
-        "the files initDataSet unlinks at re-opening (Reopened.removed in the model) are not compared with the real unlinks (property-neutral: "
-        "a surviving cut file is cut again at the next re-opening)",
+        "in order, for every script / fault / crash instant / torn length; after a restart (resume_crash_snapshot_complete, root_snapshot_complete): complete (length = announced size) — content = "
+        "'what the directory held or what this life received' (resume_received). NOT said: which source snapshot these bytes are (C06's World.snap)",
+        "verification: 'a segment FAILS THE CHECK' = segVerifyOk false (recorded size/CRC64 vs data); altered_closed_segment_never_served(_live) say what a failing check does to the reader "
+        "(the reader reads the FILES: serveFromL; `_live`: ONE closed segment's file replaced, the others as they are). WHICH changes fail the check: closed_segment_file_exact (in every reachable state the "
+        "file of a closed segment is closedHeader data ++ data, except segments whose header rewrite failed in the script — taintRun — and those a re-opened life began with), then "
+        "altered_data_accepted_iff (header kept: iff same length and CRC64 collision), accepted_iff_consistent / accepted_alteration_cases (header and data changed together: accepted iff bytes 1..12 are "
+        "the fields of the new data — a CONSISTENT REPLACEMENT of a whole segment file is accepted, inherently), version_reserved_ignored (bytes 0, 13..15 are read by nobody, as the code), "
+        "burst_alteration_refused (8-byte window, proved). No false refusal while the process lives: closed_segment_verifies_live. NOT covered: a reader that is ALREADY inside a segment when it is "
+        "altered is not re-verified (neither in the code); closed_segment_file_exact is stated for lives from the empty store (cinv_run is general: for a re-opened life the segments it began with are excluded)",
+        "OBSERVATION for the C05/C06 owners (not a C08 statement, no C08 finding): after a failed header rewrite in closeAof (Seek/Write error) the close observer never runs; the index entry keeps size == -1 "
+        "and its writer reference (rwRef) for ever, so (a) hasWriter stays true: verifying readers never verify that segment while the process lives (modelled: zombies ⊆ unverifiedOf; tied: c8v resumed_zombie), "
+        "(b) gcLogs stops at it permanently (`aof.Ref() > 0 → break`): nothing at or after it is ever collected, the cache grows without bound until the next reset / restart (modelled: gcZ; tied op for op, "
+        "corpus header_rewrite_faults.txt: 'dgc removes nothing'). A restart cures both (initDataSet re-builds the entry with its size; the torn header is then refused by a verifying reader)",
+        "id level: root_bytes_true covers any interleaving of lives and id-level operations cut at any syscall (RootReach); the tie runs two id scripts per run. A writer left OPEN across an id switch / "
+        "DelRunId (old.Close() after the rename: header rewrite through the open descriptor, os.Remove with the old path) is outside Disk.okOp and not scripted; changeReplId's second branch "
+        "(RemoveAll(new) + MkdirAll(old)) is unreachable from SetRunId and not modelled; after DelRunId the Storer's dir is \"\" — a writer created before the next SetRunId would write to the "
+        "process' working directory (not scripted, the callers set an id first)",
         "bridge to C06 (reopen_cache_wf for ANY image, reopened_cache_wf / reopened_cache_ok for every script and crash instant; definitions imported from Model/Psync.lean): "
         "the re-opened cache satisfies C06's CacheWF and CacheOK. Remaining hypotheses: offsets fit int64 (the model's offsets are naturals), the label id is a real id, and for "
-        "CacheOK the callers' SrcOk (the chunks appended are history id's bytes). C06's theorems are not re-stated here (Props/C06 is not imported: a broken C06 must not break C08)",
+        "CacheOK the callers' SrcOk (the chunks appended are history id's bytes). C06's theorems are not re-stated here (Props/C06 is not imported: a broken C06 must not break C08); "
+        "the bridge theorems are stated for the fault-free scripts (crashImage), not re-stated for xScriptOps",
         "a committed snapshot NAME with fewer bytes than announced (copy, file-system repair, power loss after an unsynced rename) is outside the quantifier "
-        "(process death + alterations of closed segments): initDataSet trusts the name and does not compare info.Size(); such an image is not generated",
-        "the literal syscall list is compared with the model's scriptOps: a rewrite that coalesces or splits writes gives a DIFF (tie failure), not a violation; "
+        "(process death + alterations of closed segments): initDataSet trusts the name and does not compare info.Size(); such an image is not generated (SnapOk is a hypothesis of resume_*)",
+        "the literal syscall list is compared with the model: a rewrite that coalesces or splits writes, opens with other flags or writes the header with pwrite gives a DIFF (tie failure), not a violation; "
         "the crash images themselves are always built from the syscalls that really occurred",
         "crc_mismatch_refused for arbitrary alterations is 'refused unless length equal and CRC64 collides' (altered_data_accepted_iff); "
         "the burst-error detection property of CRC64 itself is not re-proved; the version/reserved header bytes are checked by neither code nor model",
@@ -104,17 +175,20 @@ MANIFEST = {
     "text": "Lean theorems about re-opening ANY directory image (reopen = initDataSet + repaired TruncateGap): indexed segments are contiguous and "
             "cover the reported range, older segments behind a gap are discarded together with the snapshot, an offered snapshot is a committed "
             "file aligned with the first segment (temporary files never offered). UNCONDITIONAL over all writer scripts respecting the callers' "
-            "protocol, all crash instants and torn lengths: an offered snapshot holds exactly the announced number of bytes "
-            "(crash_snapshot_complete) and exactly the bytes the snapshot writer received, in order (crash_snapshot_true, ghost `received`), and every byte a reader of the re-opened cache delivers is the source's byte at that offset "
-            "(script_ops_true + crash_bytes_true; hypothesis: the chunks appended are the source's bytes). Checksum verification: no byte at or "
-            "beyond a failing segment is delivered wherever it is in the chain, an altered recorded CRC or size is refused, altered data is "
-            "accepted only if length is equal and CRC64 collides. Tie: the real writers run under strace (incl. production-size segments and "
-            "snapshots, short writes, write faults on the snapshot side); the syscall list is compared with the model and every prefix / torn "
-            "write / alteration / random subset is re-opened by the real code; resumed writers, collector, second crash, id change and DelRunId "
-            "are monitored on the real code. Bridge: the re-opened cache satisfies C06's CacheWF / CacheOK (reopened_cache_wf, reopened_cache_ok), so C06's theorems apply to whatever survives a crash.",
-    "note": "trusted: Lean kernel, strace + trace parser, process-death (not power-loss) file-system semantics, name classification in the driver; "
-            "partial: real-writers-issue-scriptOps is correspondence not theorem, header-rewrite/rotation-open/"
-            "remove faults not injected, CRC burst detection not re-proved. D15 fixed (9091dc9).",
-    "technique": "Lean 4 proof (structural induction over arbitrary directory images, operation lists and writer scripts with a file-level invariant) + "
-                 "syscall-trace correspondence (strace) with exhaustive crash-prefix replay",
+            "protocol — WITH FAULTS anywhere (header rewrite failing after k bytes at close / rotation, open failing at rotation, removals failing, short writes) — all crash instants and torn lengths "
+            "(appends and header rewrites): an offered snapshot holds exactly the announced number of bytes "
+            "and exactly the bytes the snapshot writer received, in order (fault_crash_snapshot_true, ghost `received`), and every byte a reader of the re-opened cache delivers is the source's byte at that offset "
+            "(fault_crash_bytes_true; hypothesis: the chunks appended are the source's bytes). LIFE AFTER THE RESTART: the same from ANY truthful directory a new process re-opens, any number of times "
+            "(resume_*), and above the directory: SetRunId (rename on an id change), VerifyRunId among several ids, DelRunId (RemoveAll in any order) cut at any syscall — what is served under an id is that id's "
+            "(root_bytes_true). Checksum verification: no byte at or "
+            "beyond a closed segment that FAILS THE CHECK is delivered wherever it is in the chain, after a restart and while a writer is attached (its own segment is not verified: 99a0b20; the reader reads the files); in every reachable state a closed segment's file is exactly closedHeader data ++ data (closed_segment_file_exact), so: an altered recorded CRC or size is refused, altered data is "
+            "accepted only if length is equal and CRC64 collides (never for a change within 8 consecutive bytes: proved from the table), header and data rewritten consistently are accepted (inherent). Tie: the real writers run under strace (incl. production-size segments and "
+            "snapshots, injected faults); the syscall list — flags, offsets, bytes, order, failed attempts — is compared op for op with the model, the model's crash images with the real ones, and every prefix / torn "
+            "write / alteration / random subset is re-opened by the real code (answers, bytes, files unlinked compared with the model); id-level syscalls and resumed lives in several directories likewise. "
+            "Bridge: the re-opened cache satisfies C06's CacheWF / CacheOK (reopened_cache_wf, reopened_cache_ok), so C06's theorems apply to whatever survives a crash.",
+    "note": "trusted: Lean kernel, strace + trace parser, process-death (not power-loss) file-system semantics, name classification in the driver, fault injection (RLIMIT_FSIZE, immutable dir) standing for I/O errors; "
+            "partial: real-writers-issue-the-model's-operations is correspondence not theorem, rename/fixHeader/reset-walk faults not injected, CRC burst detection proved for 8-byte windows (58..64-bit unaligned bursts trusted), "
+            "rename on an id change needs the new id to continue the history held (C06). D15 fixed (9091dc9).",
+    "technique": "Lean 4 proof (structural induction over arbitrary directory images, operation lists with faults and writer scripts with a file-level invariant, re-established from any truthful directory) + "
+                 "syscall-trace correspondence (strace, failed attempts included) with exhaustive crash-prefix replay",
 }
